@@ -33,7 +33,7 @@ HITS = Hits()
 
 class CanaryMeta(type):
     def __getattribute__(cls, name):
-        if name in DENIED_NAMES:
+        if name in DENIED_NAMES and not rt.IN_INSPECT:
             HITS.denied_attr.append(("type:" + type.__getattribute__(cls, "__name__"), name))
         return type.__getattribute__(cls, name)
 
